@@ -12,3 +12,5 @@ for c in "$@"; do
   grep -E "TOOL-ERROR" -A5 /tmp/seedtest.$id.$c.log | head -8
 done
 git -C /repo reset -q --hard HEAD; git -C /repo status --short
+# evidence written while a seed was applied is not evidence about the real tree
+git -C /verif checkout -q -- evidence 2>/dev/null
